@@ -372,6 +372,14 @@ func (s *Service) createCertManager(options ServiceOptions) (CertManager, error)
 		return nil, nil
 	}
 
+	// Certificates are only ever looked up on the root path service of a
+	// host. Other services merely inherit its TLS flags (see
+	// syncTLSOptionsFromRootDomain), including in the saved state, and must
+	// not get (or fail to get) a certificate manager of their own.
+	if !slices.Contains(options.PathPrefixes, rootPath) {
+		return nil, nil
+	}
+
 	if options.TLSCertificatePath != "" && options.TLSPrivateKeyPath != "" {
 		return NewStaticCertManager(options.TLSCertificatePath, options.TLSPrivateKeyPath)
 	}
